@@ -218,7 +218,7 @@ void Blocks::split(Block *b, Block *&l, Block *&r, Constraint *c) {
     f<<"Split left: "<<*l<<endl;
     f<<"Split right: "<<*r<<endl;
 #endif
-    r->posn = b->posn;
+    r->posn = b->posn * b->ps.scale / r->ps.scale;
     //COLA_ASSERT(r->weight!=0);
     //r->wposn = r->posn * r->weight;
     mergeLeft(l);
